@@ -330,7 +330,24 @@ def rule_R22_distance_class(ctx, rep, config="c-lib"):
         good = [x for x in allc if x[0] == "ge" and x[1] == "set_core.n_all_dists"]
         lower = [x for x in allc if x[0] in ("ge", "gt")]
         found = good[0] if good else (lower[0] if lower else None)
-        if good:
+        # ... and under nothing else: every situation with a nullable symbol behind the dot is advanced, not only the first one that mentions the symbol
+        other = None
+        for (cc, pol) in _controlling_conditions(f, a.block.name):
+            flds = []
+            for o in cc.ops:
+                lp = loaded_from(f, o)
+                flds.append(lp.last_field() if lp is not None and lp.steps else (lp.root[1] if lp is not None and lp.root[0] == "g" else None))
+            known = [x for x in flds if x in ("symb.empty_p", "symb.term_p", "set_core.n_all_dists", "set_core.n_sits", "rule.rhs_len", "sit.pos", "new_n_start_sits", "set_core.n_start_sits")]
+            if known:
+                continue
+            ci = [f.inst(strip_casts(f, o)) for o in cc.ops]
+            if any(x is not None and x.is_call() for x in ci):
+                other = (cc, [x.callee for x in ci if x is not None and x.is_call()][0])
+        if good and other is not None:
+            rep.violation("R22-class", key, "the dot is moved over a nullable symbol only under a test of the result of %s (%s): the situations that mention the symbol after "
+                          "the first one are not advanced -- derivations through the empty alternative at their place are lost (a real ambiguity is not reported, "
+                          "sentences can be rejected)" % (other[1], other[0].where()), where=a.where(), witness=[other[0].where(), a.where()])
+        elif good:
             rep.ok("R22-class", key, sample={"call": a.where(), "guard": found[2].where()})
         else:
             rep.violation("R22-class", key, "the dot of new_sits[i] is moved over a nullable symbol into an initial (zero-distance) situation %s: a situation that carries "
@@ -339,3 +356,51 @@ def rule_R22_distance_class(ctx, rep, config="c-lib"):
                               ("under `i %s %s' instead of `i >= n_all_dists'" % ({"ge": ">=", "lt": "<", "gt": ">", "le": "<="}[found[0]], found[1])) if found
                               else "without a test of the class of i"), where=a.where(), witness=[a.where()])
     rep.floor("R22-class", "nullable skips into an initial situation", n, 1)
+
+
+def rule_R22_replacement(ctx, rep, config="c-lib"):
+    rep.rule("R22-replace", "a situation of the set being built is replaced (a store of sit_create (..) into new_sits[i]) only by the same dotted rule with another "
+                            "context: the rule and the position given to sit_create are S->rule and S->pos of the situation S = new_sits[i] that is replaced (the "
+                            "transition and reduce vectors already refer to slot i)")
+    p = ctx.prog(config)
+    n = 0
+    for f in p.m.defined():
+        if f.module and not f.module.startswith("yaep."):
+            continue
+        for c in f.calls():
+            if c.callee != "sit_create" or len(c.args) < 3:
+                continue
+            # stored into new_sits[idx]?
+            slot = None
+            al = set([c.id])
+            for u in f.uses().get(c.id, []):
+                if u.op == "phi":
+                    al.add(u.id)
+            for s_ in f.all_insts():
+                if s_.op == "store" and strip_casts(f, s_.ops[0]).get("v") in al:
+                    pa = resolve_addr(f, s_.ops[1])
+                    b = loaded_from(f, pa.root[1]) if pa.root[0] == "val" else None
+                    if b is not None and b.root == ("g", "new_sits") and not b.steps and pa.steps:
+                        slot = (s_, strip_int_casts(f, pa.steps[-1][1]))
+            if slot is None:
+                continue
+            n += 1
+            rep.cover(p, [f.name])
+            key = "%s/replacement#%d" % (f.name, n)
+            S_rule = _sit_of_field(f, c.args[0], "sit.rule")
+            S_pos = _sit_of_field(f, c.args[1], "sit.pos")
+            same_slot = False
+            if S_rule is not None and S_rule[0] == "val":
+                src = f.insts.get(S_rule[1])
+                if src is not None and src.op == "load":
+                    qa = resolve_addr(f, src.ops[0])
+                    qb = loaded_from(f, qa.root[1]) if qa.root[0] == "val" else None
+                    same_slot = qb is not None and qb.root == ("g", "new_sits") and qa.steps and strip_int_casts(f, qa.steps[-1][1]) == slot[1]
+            if S_rule is not None and S_pos == S_rule and same_slot and const_int(c.args[1]) is None:
+                rep.ok("R22-replace", key, sample={"call": c.where(), "store": slot[0].where()})
+            else:
+                why = "another rule" if S_rule is None or not same_slot else ("the constant position %s" % const_int(c.args[1]) if const_int(c.args[1]) is not None else "another position")
+                rep.violation("R22-replace", key, "the situation in new_sits[i] is replaced by one with %s than the situation it replaces: the vectors of the core that were "
+                              "formed before still refer to slot i -- an item advanced over a nullable prefix is put back to the start of its rule (valid input "
+                              "rejected, or a wrong tree, at lookahead 2 only)" % why, where=c.where(), witness=[c.where(), slot[0].where()])
+    rep.floor("R22-replace", "replacements of a situation in new_sits", n, 1)
